@@ -14,7 +14,7 @@ Definition kind_dt (k : string) : option dt :=
   match k with
   | "pyint" => Some I64 | "pyfloat" => Some F64
   | "np.int64" => Some I64 | "np.int32" => Some I32 | "np.int16" => Some I16
-  | "np.float64" => Some F64 | "np.float32" => Some F32 | "np.float16" => Some F16
+  | "np.float64" => Some F64 | "np.float32" => Some F32 | "np.float16" => Some F16 | "np.float128" => Some F128
   | _ => None end.
 Definition is_numpy_kind (k : string) : bool :=
   match k with "pyint" | "pyfloat" => false | _ => true end.
@@ -32,8 +32,8 @@ Definition imul_k (h : ah) (c : Qc) (k : string) : result ah :=
 Definition idiv_k (h : ah) (c : Qc) (k : string) : result ah :=
   match kind_dt k with
   | None => Err EType
-  | Some _ =>
-      let h1 := coerce h F64 in
+  | Some d =>
+      let h1 := coerce h (promote F64 d) in
       let f := map (fun x => x / c) (ah_freq h1) in
       if negb (nonneg f) then Err EValue else
       Ok (mkAh (ah_axes h1) f (map (fun x => x / (c * c)) (ah_err2 h1)) (map (xscale (/ c)) (ah_missed h1)) (ah_dt h1)
@@ -87,7 +87,7 @@ Fixpoint run_chain (h : ah) (ops : list sop) : list sres :=
                    | _ => (* a refused in-place operation has already promoted the dtype *)
                           run_chain (match o with
                                      | SMul _ k FInplace => match kind_dt k with Some d => coerce h d | None => h end
-                                     | SDiv _ k FInplace => match kind_dt k with Some _ => coerce h F64 | None => h end
+                                     | SDiv _ k FInplace => match kind_dt k with Some d => coerce h (promote F64 d) | None => h end
                                      | _ => h end) r
                    end
   end.
